@@ -66,6 +66,8 @@ NoEqLine       == [key |-> "", kind |-> "noeq", e |-> <<>>]
 Sec(name, es)  == [name |-> name, entries |-> es]
 
 EmptyF == [x \in {} |-> VOpen]
+\* TLC evaluates [i \in 1..n |-> e] lazily and again at every application; Force makes it a plain sequence once
+Force(seq) == seq \o <<>>
 
 \* ---- text substitution [MF-C, since 1.3.0]: "Some tokens are replaced in the machine file before parsing it" ----
 RECURSIVE ReplaceAll(_, _, _)
@@ -127,20 +129,20 @@ EvalAtom(a, ctx) ==
       [] a.k = "int"  -> VInt(a.n)
       [] a.k = "bool" -> VBool(a.n = 1)
       [] a.k = "id"   -> Lookup(a.s, ctx)
-      [] a.k = "arr"  -> FirstBad([i \in 1..Len(a.items) |-> EvalExpr(a.items[i], ctx)])
+      [] a.k = "arr"  -> FirstBad(Force([i \in 1..Len(a.items) |-> EvalExpr(a.items[i], ctx)]))
       [] OTHER        -> VErr("unsupported")
 FoldJoin(vs, i, acc) == IF i > Len(vs) THEN acc ELSE FoldJoin(vs, i + 1, Join(acc, vs[i]))
 EvalTerm(t, ctx) == IF t = <<>> THEN VErr("malformed")
-                    ELSE LET vs == [i \in 1..Len(t) |-> EvalAtom(t[i], ctx)] IN FoldJoin(vs, 2, vs[1])
+                    ELSE LET vs == Force([i \in 1..Len(t) |-> EvalAtom(t[i], ctx)]) IN FoldJoin(vs, 2, vs[1])
 FoldAdd(vs, i, acc) == IF i > Len(vs) THEN acc ELSE FoldAdd(vs, i + 1, Add(acc, vs[i]))
 EvalExpr(e, ctx) == IF e = <<>> THEN VErr("malformed")
-                    ELSE LET vs == [i \in 1..Len(e) |-> EvalTerm(e[i], ctx)] IN FoldAdd(vs, 2, vs[1])
+                    ELSE LET vs == Force([i \in 1..Len(e) |-> EvalTerm(e[i], ctx)]) IN FoldAdd(vs, 2, vs[1])
 
 \* the same with both operators folded from the right (used by the associativity law only)
 RECURSIVE FoldAddR(_, _), FoldJoinR(_, _)
 FoldAddR(vs, i) == IF i = Len(vs) THEN vs[i] ELSE Add(vs[i], FoldAddR(vs, i + 1))
 FoldJoinR(vs, i) == IF i = Len(vs) THEN vs[i] ELSE Join(vs[i], FoldJoinR(vs, i + 1))
-EvalExprR(e, ctx) == LET ts == [i \in 1..Len(e) |-> LET t == e[i] IN FoldJoinR([j \in 1..Len(t) |-> EvalAtom(t[j], ctx)], 1)]
+EvalExprR(e, ctx) == LET ts == Force([i \in 1..Len(e) |-> LET t == e[i] IN FoldJoinR(Force([j \in 1..Len(t) |-> EvalAtom(t[j], ctx)]), 1)])
                      IN FoldAddR(ts, 1)
 
 \* identifiers an expression reads
@@ -214,7 +216,7 @@ EvalEntries(es, i, consts, local, acc, env) ==
                   ELSE EvalExpr(en.e, ctx)
          IN EvalEntries(es, i + 1, consts, (en.key :> v) @@ local, Append(acc, [key |-> en.key, v |-> v]), env)
 
-AsFun(kvs) == [k \in { kvs[i].key : i \in 1..Len(kvs) } |-> kvs[CHOOSE i \in 1..Len(kvs) : kvs[i].key = k].v]
+AsFun(kvs) == [k \in { kvs[i].key : i \in 1..Len(kvs) } |-> kvs[CHOOSE i \in 1..Len(kvs) : kvs[i].key = k].v] @@ EmptyF
 
 \* order: the order in which the sections other than [constants] are evaluated (a permutation of their indices in
 \* the view).  The result does not depend on it (law OrderIrrelevant), which is why the documentation need not say.
@@ -222,7 +224,7 @@ EvalView(view, env) ==
     LET c == Pos(view, LAMBDA x : x.name = "constants")
         cres == IF c = 0 THEN <<>> ELSE EvalEntries(view[c].entries, 1, EmptyF, EmptyF, <<>>, env)
         consts == AsFun(cres)
-        secres == [i \in 1..Len(view) |-> IF i = c THEN cres ELSE EvalEntries(view[i].entries, 1, consts, EmptyF, <<>>, env)]
+        secres == Force([i \in 1..Len(view) |-> IF i = c THEN cres ELSE EvalEntries(view[i].entries, 1, consts, EmptyF, <<>>, env)])
         allv == UNION { { secres[i][j].v : j \in 1..Len(secres[i]) } : i \in 1..Len(view) }
         triples == UNION { { [sec |-> view[i].name, key |-> secres[i][j].key, v |-> secres[i][j].v] : j \in 1..Len(secres[i]) }
                            : i \in (1..Len(view)) \ {c} }
